@@ -21,7 +21,7 @@ MANIFEST = dict(
     technique="TLA+ model check of Reinit = Init + TLC-generated histories with reinit replayed into Rust + TLC trace validation",
 )
 
-KINDS = ["smh_f64_fnv", "smh_f32_no", "smh2_u64_fnv", "smh2_u32_xx", "ss_u16", "ss_u32", "pmh2"]
+KINDS = ["smh_f64_fnv", "smh_f32_no", "smh2_u64_fnv", "smh2_u32_xx", "ss_u16", "ss_u32", "ss_i32", "pmh2"]
 
 
 def tags(hdr, bad):
@@ -56,7 +56,7 @@ def run(chk):
     chk.cov["explanation"] = "all histories of the stated shape + sampled long histories; equality with a fresh sketcher via the specification's function of the empty set"
 
 
-LL_KINDS = ["smh_f64_fnv", "smh_f32_no", "smh2_u64_fnv", "smh2_u32_xx", "ss_u16", "ss_u32", "pmh2",
+LL_KINDS = ["smh_f64_fnv", "smh_f32_no", "smh2_u64_fnv", "smh2_u32_xx", "ss_u16", "ss_u32", "ss_i32", "pmh2",
             "dens_f64", "dens_f32", "rev_f64", "rev_f32", "ord2_fnv"]
 
 
